@@ -435,6 +435,31 @@ func c13Bounds(p *core.Program, r *core.Report, t *types.Named) {
 						if b != count {
 							probs = append(probs, "the copying loop runs to `"+b+"`, not to the other side's element count "+count)
 						}
+						// the other list may be this list (l.AddAll(l)): a bound that re-reads the other
+						// side's size field on every iteration chases the size the body raises and runs off
+						// the end of the table; the count has to be taken once, in front of the loop (as the
+						// slice form takes len(other))
+						if _, direct := ast.Unparen(be.Y).(*ast.SelectorExpr); direct && !isSlice {
+							raises := false
+							ast.Inspect(v.Body, func(k ast.Node) bool {
+								switch x := k.(type) {
+								case *ast.IncDecStmt:
+									if norm(x.X) == "size" {
+										raises = true
+									}
+								case *ast.AssignStmt:
+									for _, l := range x.Lhs {
+										if norm(l) == "size" {
+											raises = true
+										}
+									}
+								}
+								return true
+							})
+							if raises {
+								probs = append(probs, "the copying loop re-reads "+count+" on every iteration while its body raises the receiver's size: appending a list to itself (l.AddAll(l)) never reaches the bound and indexes past the table")
+							}
+						}
 					}
 				case *ast.RangeStmt:
 					moved = true
